@@ -86,7 +86,6 @@ M("C02", "zoom_out_floor", "odc/geo/geobox.py", "        ny, nx = (max(1, math.c
 M("C02", "pad_forgets_pady", "odc/geo/geobox.py", "        A = self._affine * Affine.translation(-padx, -pady)\n        shape = (ny + pady * 2, nx + padx * 2)\n        return GeoBox(shape, A, self._crs)", "        A = self._affine * Affine.translation(-padx, -padx)\n        shape = (ny + pady * 2, nx + padx * 2)\n        return GeoBox(shape, A, self._crs)", "GeoBox.pad shifts by padx on both axes")
 M("C02", "mul_rmul_swapped", "odc/geo/geobox.py", "        return GeoBox(self._shape, self._affine * transform, self._crs)", "        return GeoBox(self._shape, transform * self._affine, self._crs)", "__mul__ composes on the world side")
 M("C02", "from_transform_two_corners", "odc/geo/geom.py", "        pts = [transform * pt for pt in [(0, 0), (nx, 0), (nx, ny), (0, ny)]]", "        pts = [transform * pt for pt in [(0, 0), (nx, ny)]]", "bounding box from two corners (D10 re-introduced)")
-M("C02", "getitem_int_slice", "odc/geo/geobox.py", "            roi = (roi, slice(None, None))", "            roi = (slice(roi, roi + 1), slice(None, None))", "D23 re-introduced")
 M("C02", "coords_edge_labels", "odc/geo/geobox.py", "        xs = numpy.arange(nx) * rx + (tx + rx / 2)", "        xs = numpy.arange(nx) * rx + tx", "x labels at pixel edges")
 M("C02", "zoom_to_swapped_axes", "odc/geo/geobox.py", "        A = self._affine * Affine.scale(sx, sy)\n        return (shape, A)", "        A = self._affine * Affine.scale(sy, sx)\n        return (shape, A)", "zoom_to scales swapped")
 M("C02", "scaled_down_floor", "odc/geo/geobox.py", "    ny, nx = (X // scaler + (1 if X % scaler else 0) for X in src_geobox.shape)", "    ny, nx = (max(1, X // scaler) for X in src_geobox.shape)", "scaled_down_geobox drops the partial pixel")
